@@ -164,6 +164,10 @@ impl Prop for C09 {
                 let mut mcls = mr.split(' ').next().unwrap_or("").to_string();
                 if mcls == "ok" { let pl = mr.split(' ').nth(1).unwrap_or(""); if unhex(pl).len() != 32 { mcls = "err".into(); } }
                 o.model_obs = mcls; o.validated += 1;
+                // the Lean definitions GENERATED from noise.rs / lib.rs (tools/rs2lean_noise.py), run on the same message: this ties that translator to the code
+                if r.is_some() { let sr = m.ask(&format!("noise_decrypt_src {} {} {} {}", hex(&rk), hex(&rpk), hex(&pro), hexd(&msg))); o.validated += 1; o.tags.push("translated noise.rs run".into());
+                    let scls = sr.split(' ').next().unwrap_or("").to_string();
+                    if (scls == "ok") != (r == Some(true)) && o.disagreement.is_none() { o.disagreement = Some(format!("the Lean definitions translated from noise.rs / lib.rs say `{}` for a handshake message of {} bytes, the real noise_decrypt says {}", scls, msg.len(), if r == Some(true) { "ok" } else { "err" })); } }
                 o.nontrivial = Some(format!("noise/{}/{}/{}", msg.len(), mode, o.impl_obs));
                 if r.is_none() { fail_crash(&mut o, &format!("noise_decrypt ({}-byte handshake message)", msg.len())); }
                 else if o.impl_obs != o.model_obs { o.disagreement = Some(format!("impl {} model {}", o.impl_obs, o.model_obs)); }
